@@ -237,6 +237,12 @@ func RunWalletXMSS(ep *Episode) *Result {
 	if before.o.height != ep.Height {
 		w.add("height-mismatch", cfg, fmt.Sprintf("GetHeight=%d, created with %d", before.o.height, ep.Height))
 	}
+	// exporting twice gives the same secrets, and the first export is not disturbed
+	if again, oc2 := observe(orig, true); !oc2.panicked {
+		if d := before.o.diff(&again, true); d != "" {
+			w.add("export-not-stable", cfg+","+d, "a second export of the same key differs from the first in "+d)
+		}
+	}
 	{
 		h := sha256.New()
 		h.Write(before.o.pk[:])
